@@ -85,7 +85,7 @@ def run(tier, out, model_ok, proof):
             roots.insert(rng.randint(1, len(roots)), treecorr.Node("MACRO @unused%d" % i, [treecorr.Node(rng.choice(["Request any", "Query q\n{}", "Headers\n{}", "404 any"]))], explicit=True))
         files = C09.split_project(rng, roots) if rng.random() < 0.5 else {"root.jst": C09.render_nodes(roots)}
         projects.append(files)
-    cases, metas = [], []
+    cases, metas, splits = [], [], []
     pairs = [(k,) for k in KINDS] + ([tuple(p) for p in itertools.combinations(KINDS, 2)] if big else [])
     for i, files in enumerate(projects):
         cases.append(treecorr.project_case("b%d_plain" % i, files))
@@ -95,7 +95,25 @@ def run(tier, out, model_ok, proof):
             c["banned"] = list(bs)
             cases.append(c)
             metas.append((i, j, bs))
+            if len(bs) > 1:
+                # the same ban set given as several options, in both orders, must behave like the single option
+                for tag, order in (("s", list(bs)), ("r", list(reversed(bs)))):
+                    c2 = treecorr.project_case("b%d_%d%s" % (i, j, tag), files)
+                    c2["banned"] = order
+                    c2["bansplit"] = True
+                    cases.append(c2)
+                    splits.append(("b%d_%d" % (i, j), c2["id"], bs, i))
     res, crashes = docgen.run_build(cases)
+    for joint, sid, bs, i in splits:
+        a, b = res.get(joint), res.get(sid)
+        if a is None or b is None or a["end"] == "panic" or b["end"] == "panic":
+            continue
+        same = a["end"] == b["end"] and a.get("json") == b.get("json") and docgen.err_text(a) == docgen.err_text(b)
+        if a["end"] == "err" and b["end"] == "err" and (a["err"]["line"], a["err"]["file"]) != (b["err"]["line"], b["err"]["file"]):
+            same = False
+        if not same:
+            out.violations.append({"what": "banning %s through several options behaves differently from one option: %s / %s vs %s / %s" % (list(bs), a["end"], docgen.err_text(a)[:60], b["end"], docgen.err_text(b)[:60]),
+                                   "class": "other", "input": {"banned": list(bs), "files": {n: d.decode("latin1")[:1500] for n, d in projects[i].items()}}})
     rejected = neutral = 0
     for i, j, bs in metas:
         files = projects[i]
@@ -128,7 +146,7 @@ def run(tier, out, model_ok, proof):
     out.coverage.update({
         "evaluations": len(cases),
         "distinct_nontrivial": rejected + neutral,
-        "rule": "structured projects (single file, include trees, macro forms, unused macros) x ban sets: every single kind of the 31%s; expected verdict computed from the kinds written in the project text (lib: line_kinds): rejected with the not-allowed error on a banned directive if one occurs, otherwise byte-identical to the build without the option" % (", every pair on 40 projects and sampled pairs elsewhere" if big else " and 12 sampled pairs per project"),
+        "rule": "structured projects (single file, include trees, macro forms, unused macros) x ban sets: every single kind of the 31%s; every pair also given as several options in both orders (must equal the single option); expected verdict computed from the kinds written in the project text (lib: line_kinds): rejected with the not-allowed error on a banned directive if one occurs, otherwise byte-identical to the build without the option" % (", every pair on 40 projects and sampled pairs elsewhere" if big else " and 12 sampled pairs per project"),
         "samples": [{"banned": list(metas[0][2]), "root": projects[0]["root.jst"].decode("latin1")[:200]}],
         "rejected_as_expected": rejected, "neutral_cases": neutral,
         "exhaustive": big,
